@@ -90,11 +90,42 @@ func childMain(chunkFile, resFile string, par int, unit time.Duration) {
 			defer wg.Done()
 			defer func() { <-sem }()
 			emitW(wire{Idx: k, Begin: true})
-			emitW(wire{Idx: k, Res: execDescriptor(jobs[k], unit)})
+			// backstop watchdog (the cases have their own, much tighter ones): a job that does not come back is a
+			// finding "hang" with the job as replay, and the other jobs go on
+			limit := 15 * time.Minute
+			if strings.HasPrefix(jobs[k].Desc, "seq ") {
+				limit = 2 * time.Minute
+			}
+			resCh := make(chan *rec, 1)
+			go func() { resCh <- execDescriptor(jobs[k], unit) }()
+			select {
+			case res := <-resCh:
+				emitW(wire{Idx: k, Res: res})
+			case <-time.After(limit):
+				emitW(wire{Idx: k, Res: hung(jobs[k], limit)})
+			}
 		}(k)
 	}
 	wg.Wait()
 	out.Close()
+	os.Exit(0) // goroutines of hung cases may still be around
+}
+
+// hung is what the child records for a job that did not come back.
+func hung(j job, limit time.Duration) *rec {
+	r := newRec()
+	if strings.HasPrefix(j.Desc, "seq ") {
+		for _, l := range strings.Split(strings.TrimPrefix(j.Desc, "seq "), " | ") {
+			r.Line(l, "hang")
+		}
+	} else {
+		r.Line(j.Desc, "hang")
+	}
+	r.Fail("hang", fmt.Sprintf("the case did not finish within %v; ops=%s", limit, strings.TrimPrefix(j.Desc, "seq ")),
+		map[string]string{"oracle": "hang", "op": "case"})
+	r.Count("case-hang")
+
+	return r
 }
 
 var hiveFrame = regexp.MustCompile(`github\.com/iotaledger/hive\.go/[^\s(]+(\([^)]*\))?[.\w]*`)
